@@ -191,7 +191,7 @@ Proof.
   intros W I OK. destruct d as [es clock nk]. cbn [d_ents d_clock d_nextkey] in *.
   unfold apply_op. cbn [d_ents d_clock d_nextkey].
   assert (dir_inv (mkDir es (S clock) nk) = true) as I1 by (eapply dir_inv_mono; [exact I|lia]).
-  destruct o as [a c|a|a|a k|a c k|a r|e|a].
+  destruct o as [a c|a|a|a k|a c k|a r|e|a|l].
   - (* edit configuration *)
     unfold set_cfg. apply cfg_map_inv; [exact I| | |]; intros e0; destruct (Nat.eqb (e_alias e0) a); cbn; auto.
   - (* touch configuration *)
@@ -236,4 +236,6 @@ Proof.
     + intros q c f H. destruct q as [q|]; [|exact H].
       unfold chain_with, escape_with, cert_at, file_at in *.
       rewrite find_ent_filter. destruct (Nat.eqb q a); [apply orb_true_r|exact H].
+  - (* profile edit: configuration changes, its file time does not *)
+    apply cfg_map_inv; [exact I| | |]; intros e0; destruct (find (fun p => Nat.eqb (fst p) (e_alias e0)) l); cbn; auto.
 Qed.
